@@ -320,6 +320,28 @@ class Interp:
     def val_key(self, kd):
         return "$val#%s#%s" % (sort_of(kd.K), sort_of(strip_opt(kd.V)))
 
+    def rank_key(self, kd):
+        return "$rank#%s" % sort_of(kd.K)
+
+    def rank_of(self, st, v):
+        """insertion rank of the keys of an ordered dict (ghost): Python dicts iterate in insertion order"""
+        kd = self.kd_of(v)
+        arr = st.cur_heap_get(self.rank_key(kd), z3.ArraySort(sort_of(kd.K), z3.IntSort()))
+        return z3.Select(arr, v.term)
+
+    def note_insert(self, st, obj, k, dom_before):
+        """obj[k] = ... : a key that was not present gets a rank above every present key; a present key keeps its rank"""
+        kd = self.kd_of(obj)
+        if kd.name not in REG.ordered:
+            return
+        rk = self.rank_of(st, obj)
+        r = st.fresh(z3.IntSort(), "rank")
+        j = z3.FreshConst(sort_of(kd.K), "j")
+        st.assume(z3.ForAll([j], z3.Implies(z3.Select(dom_before, j), z3.Select(rk, j) < r)))
+        key = self.rank_key(kd)
+        arr = st.hget(key, z3.ArraySort(sort_of(kd.K), z3.IntSort()))
+        st.hset(key, z3.Store(arr, obj.term, z3.Store(rk, k, z3.If(z3.Select(dom_before, k), z3.Select(rk, k), r))))
+
     def dom_of(self, st, v):
         base = strip_opt(v.ty)
         if isinstance(base, tuple) and base[0] == "MSet":
@@ -431,8 +453,11 @@ class Interp:
 
     def content_keys(self, kd):
         if kd.kind == "dict":
-            return [(self.dom_key(kd), z3.ArraySort(sort_of(kd.K), z3.BoolSort())),
-                    (self.val_key(kd), z3.ArraySort(sort_of(kd.K), sort_of(strip_opt(kd.V))))]
+            ks = [(self.dom_key(kd), z3.ArraySort(sort_of(kd.K), z3.BoolSort())),
+                  (self.val_key(kd), z3.ArraySort(sort_of(kd.K), sort_of(strip_opt(kd.V))))]
+            if kd.name in REG.ordered:
+                ks.append((self.rank_key(kd), z3.ArraySort(sort_of(kd.K), z3.IntSort())))
+            return ks
         if kd.kind == "set":
             return [(self.dom_key(kd), z3.ArraySort(sort_of(kd.K), z3.BoolSort()))]
         if kd.kind == "list":
@@ -1254,6 +1279,7 @@ class Interp:
             kd = REG.get(base[1])
             if kd.kind == "dict":
                 k = self.key_term(st, kd, idx)
+                self.note_insert(st, obj, k, self.dom_of(st, obj))
                 self.set_dom(st, obj, z3.Store(self.dom_of(st, obj), k, True))
                 self.set_vals(st, obj, z3.Store(self.vals_of(st, obj), k, self.coerce(st, val, kd.V).term))
                 return
